@@ -454,9 +454,15 @@ func (w *inotify) handleEvent(inEvent *unix.InotifyEvent, buf *[65536]byte, offs
 			return Event{}, true
 		}
 
+		// EINVAL means the kernel watch is already gone: the file was removed
+		// after it was renamed and before we got here. That's not an error.
 		err := w.remove(watch.path)
-		if err != nil && !errors.Is(err, ErrNonExistentWatch) {
-			if !w.sendError(err) {
+		if err != nil && !errors.Is(err, ErrNonExistentWatch) && !errors.Is(err, unix.EINVAL) {
+			// Don't hold the lock while waiting for someone to read the error.
+			w.mu.Unlock()
+			ok := w.sendError(err)
+			w.mu.Lock()
+			if !ok {
 				return Event{}, false
 			}
 		}
@@ -478,8 +484,13 @@ func (w *inotify) handleEvent(inEvent *unix.InotifyEvent, buf *[65536]byte, offs
 		/// New directory created: set up watch on it.
 		if isDir && ev.Has(Create) {
 			err := w.register(ev.Name, watch.flags, true)
-			if !w.sendError(err) {
-				return Event{}, false
+			if err != nil {
+				w.mu.Unlock()
+				ok := w.sendError(err)
+				w.mu.Lock()
+				if !ok {
+					return Event{}, false
+				}
 			}
 
 			// This was a directory rename, so we need to update all the
